@@ -70,3 +70,31 @@ Fixpoint crossed (first : bool) (tr : list tline) : list (N * N) :=
   | (ia, i, c, a) :: r =>
     (if first then [] else [(ia, i)]) ++ (if c =? 1 then [(ia, a)] else []) ++ crossed false r
   end.
+
+(** ** Scope of the soundness theorem [sdk_sound_wrt_ref] (decidable) *)
+Section Scope.
+Context {key : Type}.
+(** interface 0 means "inside the AS": no link may use it ([ScionLink::new] refuses it) *)
+Definition wf_topo (t : topology key) : bool :=
+  forallb (fun l => negb (l_aif l =? 0) && negb (l_bif l =? 0)) (t_links t).
+
+(** the step is outside the two open findings: no peering flag anywhere in the path, and if
+    the current hop field ends its segment (a segment change happens in this AS), the packet
+    came from a neighbour and neither the arrival nor the departure link is a peering link *)
+Definition step_scope (t : topology key) (ia i : N) (p : path) : bool :=
+  negb (uses_peering p) &&
+  match seg_index (p_lens p) (p_ch p) with
+  | Some (seg, _, true) =>
+    if (length (p_hops p) <=? p_ch p + 1)%nat then true
+    else negb (i =? 0) &&
+         match nth_error (p_hops p) (S (p_ch p)), nth_error (p_infos p) (S seg) with
+         | Some nh, Some ninf =>
+           match iface_state t ia i, iface_state t ia (hop_egress nh ninf) with
+           | Some (a, _), Some (b, _) => negb (involves_peer a b)
+           | _, _ => true
+           end
+         | _, _ => true
+         end
+  | _ => true
+  end.
+End Scope.
